@@ -407,7 +407,15 @@ pub fn one_c18(prop: &str, c: &Case, rep: &mut Report) {
                     v.dual.rotate_left(k);
                 }
                 rep.count("permuted_clips", 1);
+                // storage history: every fourth variant has been through with_faces() -> discard_faces() first
+                let round_trip = rot == 2;
+                if round_trip {
+                    rep.count("permuted_clips_after_face_round_trip", 1);
+                }
                 match guarded(|| {
+                    if round_trip {
+                        var = var.with_faces().discard_faces();
+                    }
                     cb.clip(&mut var, hs.clone());
                     var
                 }) {
